@@ -302,6 +302,13 @@ func genExecHistory(r *Rng, pf execProfile) (InstD, []ReqD) {
 		}
 		reqs = append(reqs, rq)
 	}
+	if len(g.inst.Breakers) > 0 && r.Chance(35) {
+		// only some of the breakers' four state-change listeners are registered
+		g.inst.BNoLsn = 1 + r.Intn(15)
+		for i := range reqs {
+			reqs[i].BNoLsn = g.inst.BNoLsn
+		}
+	}
 	return g.inst, reqs
 }
 
